@@ -986,7 +986,58 @@ def finding_case(spec):
     return out
 
 
-CASES = {"polygon": polygon_case, "scene": scene_case, "bake": bake_case, "finding": finding_case}
+def int_case(spec):
+    """surfaces given as INTEGER-typed vertex arrays (whole-number coordinates typed without a decimal point),
+    tilted against the axes: every answer must be the one for the same numbers given as floats, and the
+    exact line-of-sight oracle's"""
+    import sparrowpy.geometry as G
+    rng = np.random.default_rng([spec["seed"], 91000 + spec["idx"]])
+    out = {"evaluations": 0, "mismatches": [], "prop_failures": [], "dist": {"integer_vertex_arrays": 1},
+           "nontrivial": [], "rejected": 0, "traces": 0}
+    for _ in range(40):
+        u = rng.integers(-4, 5, 3); v = rng.integers(-4, 5, 3)
+        nrm = np.cross(u, v)
+        if np.count_nonzero(nrm) >= 2 and np.dot(u, v) == 0 and np.linalg.norm(u) >= 2 and np.linalg.norm(v) >= 2:
+            break
+    else:
+        out["rejected"] = 1
+        return out
+    o = rng.integers(-5, 6, 3)
+    pts_i = np.array([o, o + u, o + u + v, o + v], dtype=np.int64)
+    if rng.random() < 0.5:
+        pts_i = pts_i[::-1].copy()
+    pts_f = pts_i.astype(float)
+    n = nrm / np.linalg.norm(nrm) * (1.0 if rng.random() < 0.5 else -1.0)
+    ex = ExactSurface(pts_f, n)
+    tag = dict(kind="int", seed=spec["seed"], idx=spec["idx"], pts=pts_i.tolist(), normal=n.tolist())
+    out["sample"] = tag
+    c = pts_f.mean(axis=0)
+    nbad = 0
+    for k in range(spec.get("n", 12)):
+        a, b = rng.uniform(-0.9, 0.9, 2)
+        x = c + a * 0.5 * u + b * 0.5 * v if rng.random() < 0.6 else c + rng.uniform(-1.6, 1.6) * 0.5 * u + rng.uniform(-1.6, 1.6) * 0.5 * v
+        h = float(rng.uniform(0.3, 2.0))
+        p_, q_ = x + n * h + rng.normal(0, 0.05, 3), x - n * h * rng.uniform(0.5, 1.5) + rng.normal(0, 0.05, 3)
+        if clearance(p_, q_, pts_f, n) < CLEAR:
+            out["rejected"] += 1
+            continue
+        out["evaluations"] += 1
+        got_i = bool(G._basic_visibility(p_, q_, pts_i, n))
+        got_f = bool(G._basic_visibility(p_, q_, pts_f, n))
+        want = ex.visible(p_, q_)
+        if got_i != got_f or (want is not None and got_i != want):
+            nbad += 1
+            if nbad == 1:
+                out["prop_failures"].append(dict(
+                    test="integer_vertex_array", case=dict(tag, p=p_.tolist(), q=q_.tolist()),
+                    what="_basic_visibility with the surface %s given as an int64 array answers %s, with the same numbers "
+                         "as floats %s, exact line of sight: %s" % (pts_i.tolist(), got_i, got_f, want)))
+    if out["evaluations"]:
+        out["nontrivial"].append(case_hash(tag))
+    return out
+
+
+CASES = {"int": int_case, "polygon": polygon_case, "scene": scene_case, "bake": bake_case, "finding": finding_case}
 
 
 def dispatch(spec):
@@ -1001,6 +1052,7 @@ def run(res):
     specs = [dict(case="scene", seed=res.seed, idx=i, max_centers=(20 if quick else 30)) for i in range(n_scene)]
     specs += [dict(case="bake", seed=res.seed, idx=i, max_patches=(14 if quick else 24)) for i in range(n_bake)]
     specs += [dict(case="finding", seed=res.seed, idx=0)]
+    specs += [dict(case="int", seed=res.seed, idx=i) for i in range(30 if quick else 400)]
     specs += [dict(case="polygon", seed=res.seed, idx=i, n_points=14, n_segs=12) for i in range(n_poly)]
     for r in fw.run_parallel(dispatch, specs):
         res.absorb(r)
@@ -1040,3 +1092,5 @@ def replay(res, payload):
                                       panel=c.get("panel", False))))
         elif kind == "finding":
             res.absorb(finding_case(dict(seed=c.get("seed", 0), idx=0)))
+        elif kind == "int":
+            res.absorb(int_case(dict(seed=c["seed"], idx=c["idx"])))
